@@ -5,7 +5,7 @@ cd /verif
 dirs="$@"; [ -z "$dirs" ] && dirs=$(ls -d seeded/C*)
 for d in $dirs; do
   id=$(basename $d | cut -d- -f1)
-  git -C /repo apply $d/patch.diff || { echo "$d: patch does not apply"; continue; }
+  git -C /repo apply /verif/$d/patch.diff || { echo "$d: patch does not apply"; continue; }
   ./check $id quick 2>&1 | grep -v "^WARNING" | cut -c1-700 > $d/detected.txt
   git -C /repo checkout -- .
   echo "$d: $(grep -c '^VIOLATION' $d/detected.txt) violation line(s): $(grep '^VIOLATION' $d/detected.txt | head -1)"
